@@ -679,8 +679,39 @@ func executeDirectives(inst *Instance, filename string,
 	return nil
 }
 
-func startServers(serverList []Server, inst *Instance, restartFds map[string]restartTriple) error {
+func startServers(serverList []Server, inst *Instance, restartFds map[string]restartTriple) (startErr error) {
 	errChan := make(chan error, len(serverList))
+
+	// if one of the servers cannot listen, nobody will ever serve on (or
+	// close) what was opened for the others, so close it here, newest
+	// first; a listener inherited from the old instance is a duplicate of
+	// the old instance's file descriptor, so closing it leaves the old
+	// instance's own listener alone
+	var (
+		ln net.Listener
+		pc net.PacketConn
+	)
+	opened := len(inst.servers)
+	defer func() {
+		if startErr == nil {
+			return
+		}
+		if ln != nil {
+			ln.Close()
+		}
+		if pc != nil {
+			pc.Close()
+		}
+		for j := len(inst.servers) - 1; j >= opened; j-- {
+			if inst.servers[j].listener != nil {
+				inst.servers[j].listener.Close()
+			}
+			if inst.servers[j].packet != nil {
+				inst.servers[j].packet.Close()
+			}
+		}
+		inst.servers = inst.servers[:opened]
+	}()
 
 	// used for signaling to error logging goroutine to terminate
 	stopChan := make(chan struct{})
@@ -688,11 +719,8 @@ func startServers(serverList []Server, inst *Instance, restartFds map[string]res
 	stopWg := &sync.WaitGroup{}
 
 	for _, s := range serverList {
-		var (
-			ln  net.Listener
-			pc  net.PacketConn
-			err error
-		)
+		var err error
+		ln, pc = nil, nil
 
 		// if performing an upgrade, obtain listener file descriptors
 		// from parent process
